@@ -44,10 +44,11 @@
 
 // ------------------------------------------------------------------ operator new recorder
 namespace rec {
-  struct R { char* p; std::size_t size; std::size_t align; bool live; bool foreign; int num; };
+  struct R { char* p; std::size_t size; std::size_t align; bool live; bool foreign; int num; int owner; };
   static R tab[4096];
   static int n = 0;
-  static int nown = 0;            // chunks of the allocator under test (numbered 0,1,..)
+  static int nown_by[16] = {0};   // chunks of the allocator object(s) under test, numbered 0,1,.. per object
+  static int cur_owner = 0;       // which allocator object is being called (multi runs)
   static int released[4096];
   static int nreleased = 0;
   static int foreign_live = 0;    // chunks obtained by copies / rebound allocators and not yet returned
@@ -57,7 +58,7 @@ namespace rec {
   static void add(void* p, std::size_t size, std::size_t align) {
     if (n < 4096) {
       tab[n].p = (char*)p; tab[n].size = size; tab[n].align = align; tab[n].live = true; tab[n].foreign = foreign;
-      tab[n].num = foreign ? -1 : nown++; if (foreign) ++foreign_live; ++n;
+      tab[n].owner = cur_owner; tab[n].num = foreign ? -1 : nown_by[cur_owner & 15]++; if (foreign) ++foreign_live; ++n;
     } else overflow = true;
   }
   static void del(void* p) {
@@ -163,6 +164,7 @@ struct PoolVT {
   void (*create)(void*); void* (*alloc)(void*, std::size_t); void (*dealloc)(void*, void*, std::size_t); void (*destroy)(void*);
   std::string (*construct)(void*, void*, unsigned char); std::string (*destruct)(void*, void*);
   std::string (*copy_probe)(void*, int); int (*print_tokens)(void*);
+  void (*copy)(void*, void*); int (*equal)(void*, void*);
 };
 template<class T, std::size_t S> PoolVT vt_pool() {
   using P = Dune::Pool<T, S>;
@@ -174,7 +176,8 @@ template<class T, std::size_t S> PoolVT vt_pool() {
     [](void*, void* p, unsigned char tag) -> std::string { std::memset(p, tag, sizeof(T)); return ""; },
     [](void*, void*) -> std::string { return ""; },
     [](void*, int) -> std::string { return "NO-COPY"; },
-    [](void* s) -> int { std::ostringstream os; ((P*)s)->print(os); std::istringstream is(os.str()); std::string t; int k = 0; while (is >> t) ++k; return k; }};
+    [](void* s) -> int { std::ostringstream os; ((P*)s)->print(os); std::istringstream is(os.str()); std::string t; int k = 0; while (is >> t) ++k; return k; },
+    [](void*, void*) {}, [](void*, void*) -> int { return -1; }};
   return v;
 }
 // allocate one block from a copy / converted / rebound allocator: it must come from a chunk of its own
@@ -211,8 +214,76 @@ template<class T, std::size_t s> PoolVT vt_pa() {
       if (rec::foreign_live != 0) fl += "!copy-leaks";
       return fl;
     },
-    [](void*) -> int { return -1; }};
+    [](void*) -> int { return -1; },
+    [](void* dst, void* src) { new (dst) A(*(A*)src); },
+    [](void* x, void* y) -> int { bool e = (*(A*)x == *(A*)y), ne = (*(A*)x != *(A*)y); return e == ne ? 2 : (e ? 1 : 0); }};
   return v;
+}
+
+// several PoolAllocator objects of one type: A<j>.<n> allocate, F<j>.<i> release, C<j> copy-construct a further object from object j,
+// V<k>.<j>.<i> release the i-th live block of object j through object k, E<j>.<k> operator== / !=
+struct MOp { char k; unsigned long long a, b, c; };
+static void run_multi(const PoolVT& v, const std::vector<MOp>& ops) {
+  char g[160]; std::snprintf(g, sizeof g, "G%ld,%ld,%ld,%ld,%ld,%ld", v.geom[0], v.geom[1], v.geom[2], v.geom[3], v.geom[4], v.geom[5]);
+  emit(g);
+  alignas(64) static char arena[16][256];
+  if (v.objsize > 256) { emit("HARNESS-OBJECT-TOO-BIG"); return; }
+  int nal = 1; v.create(arena[0]);
+  std::vector<LiveBlk> live[16]; std::vector<LiveBlk> all; all.reserve(ops.size() + 1); g_live = &all;
+  auto refresh = [&]() { all.clear(); for (int j = 0; j < nal; ++j) for (auto& b : live[j]) all.push_back(b); };
+  for (const MOp& op : ops) {
+    if (op.k == 'A') {
+      int j = (int)op.a; void* p = nullptr; std::string tok;
+      if (j >= nal) { emit("BADCASE"); continue; }
+      rec::cur_owner = j; rec::on = true;
+      try { p = v.alloc(arena[j], op.b); } catch (std::bad_alloc&) { tok = "bad_alloc"; } catch (...) { tok = "EXC-other"; }
+      rec::on = false;
+      if (tok.empty()) {
+        int c = rec::find(p); char t[96];
+        if (c < 0) { tok = "c?+?!outside"; }
+        else {
+          std::snprintf(t, sizeof t, "c%d+%zu", rec::tab[c].num, (std::size_t)((char*)p - rec::tab[c].p)); tok = t;
+          if (rec::tab[c].owner != j) tok += "!chunk-of-another-allocator";
+          if ((char*)p + v.sT > rec::tab[c].p + rec::tab[c].size) tok += "!outside";
+        }
+        if ((std::uintptr_t)p % v.aT != 0) tok += "!misaligned";
+        refresh(); if (overlaps(all, (char*)p, v.sT)) tok += "!overlap";
+        LiveBlk b{(char*)p, v.sT, next_tag(), op.b, c >= 0};
+        if (b.tagged) tok += v.construct(arena[j], p, b.tag);
+        live[j].push_back(b);
+      }
+      emit(tok);
+    } else if (op.k == 'F' || op.k == 'V') {
+      int k = (int)op.a, j = op.k == 'F' ? k : (int)op.b; unsigned long long i = op.k == 'F' ? op.b : op.c;
+      if (k >= nal || j >= nal || i >= live[j].size()) { emit("BADCASE"); continue; }
+      LiveBlk b = live[j][i]; std::string tok = "F";
+      if (!tag_ok(b)) tok += "!corrupt";
+      rec::cur_owner = k; rec::on = true;
+      bool refused = false;
+      try { v.dealloc(arena[k], b.p, 1); } catch (std::bad_alloc&) { refused = true; } catch (...) { tok = "EXC-other"; }
+      rec::on = false;
+      if (refused) tok = "bad_alloc";
+      else if (k != j) tok = "NOT-REFUSED";
+      if (!refused && k == j) live[j].erase(live[j].begin() + i);
+      emit(tok);
+    } else if (op.k == 'C') {
+      if ((int)op.a >= nal || nal >= 16) { emit("BADCASE"); continue; }
+      rec::cur_owner = nal; rec::on = true; v.copy(arena[nal], arena[op.a]); rec::on = false; ++nal;
+      emit("K");
+    } else if (op.k == 'E') {
+      if ((int)op.a >= nal || (int)op.b >= nal) { emit("BADCASE"); continue; }
+      int e = v.equal(arena[op.a], arena[op.b]);
+      emit(e == 2 ? "E?!eq-ne-inconsistent" : e == 1 ? "E1" : "E0");
+    } else emit("BADCASE");
+  }
+  refresh(); bool corrupt = false; for (auto& b : all) if (!tag_ok(b)) corrupt = true;
+  int obtained = rec::n; std::size_t bytes = rec::n ? rec::tab[0].size : 0;
+  for (int j = 0; j < nal; ++j) { rec::cur_owner = j; rec::on = true; v.destroy(arena[j]); rec::on = false; }
+  int ok = 0; for (int i = 0; i < rec::nreleased; ++i) if (rec::released[i] >= 0) ++ok;
+  std::string d = "D" + std::to_string(bytes) + ":" + std::to_string(ok) + "/" + std::to_string(obtained);
+  if (rec::nreleased != ok) d += "!bad-delete";
+  if (corrupt) d += "!corrupt";
+  emit(d); g_live = nullptr;
 }
 
 static void run_pool(const PoolVT& v, const std::vector<Op>& ops) {
@@ -431,6 +502,7 @@ template<class T, std::size_t s> static std::string api_pa() {
          && std::is_same_v<typename Dune::PoolAllocator<void, s>::template rebind<T>::other, A>
          && std::is_same_v<typename A::PoolType, Dune::Pool<T, s * sizeof(T)>> && A::size == (int)(s * sizeof(T));
   r += std::string(" rebind=") + (rb ? "1" : "0");
+  r += " dbgalign=" + std::to_string((unsigned long long)Dune::debugAlignment);
   return r;
 }
 template<class A, class Expected> static std::string api_sys() {
@@ -446,13 +518,15 @@ template<class A, class Expected> static std::string api_sys() {
 
 // ------------------------------------------------------------------ debugalign.hh: AlignedBase placement new check
 static int g_viol = 0;
-// mode 0: operator new, recording handler; 1: operator new[], recording handler; 2: operator new with the default handler (aborts)
+// mode 0: operator new, recording handler; 1: operator new[], recording handler; 2: operator new with the default handler (aborts);
+// 3: empty handler (std::function without target): the violation is ignored
 template<std::size_t A> static bool placement_violates(void* p, int mode) {
   g_viol = 0;
   using AN = Dune::AlignedNumber<double, A>;
   if (mode == 2) { AN* q = new (p) AN(1.0); (void)q; return false; }
   Dune::ViolatedAlignmentHandler old = Dune::violatedAlignmentHandler();
   Dune::violatedAlignmentHandler() = [](const char*, std::size_t, const void*) { ++g_viol; };
+  if (mode == 3) { Dune::violatedAlignmentHandler() = nullptr; AN* q = new (p) AN(1.0); (void)q; Dune::violatedAlignmentHandler() = old; return false; }
   if (mode == 0) { AN* q = new (p) AN(Dune::aligned<A>(1.0)); (void)q; if (double(*q) != 1.0) ++g_viol; }
   else { AN* q = new (p) AN[2]; (void)q; }
   Dune::violatedAlignmentHandler() = old;
@@ -496,6 +570,25 @@ static void run_case(const std::string& line) {
 #define SYS(ST, AT) if (what == "malloc" && sT == ST && aT == AT) { emit(api_sys<Dune::MallocAllocator<Blob<ST, AT>>, Dune::MallocAllocator<OtherType>>()); return; } \
                     if (what == "debug" && sT == ST && aT == AT) { emit(api_sys<Dune::DebugAllocator<Blob<ST, AT>>, Dune::DebugAllocator<OtherType>>()); return; }
 #define ALIGNED(ST, AT, AL) if (what == "aligned" && sT == ST && aT == AT && s == AL) { emit(api_sys<Dune::AlignedAllocator<Blob<ST, AT>, AL>, Dune::AlignedAllocator<OtherType, AL>>()); return; }
+#include CONFIGS_INC
+#undef POOL
+#undef PA
+#undef SYS
+#undef ALIGNED
+    emit("NO-SUCH-CONFIG"); return;
+  }
+  if (kind == "multi") {
+    unsigned long long sT, aT, s; is >> sT >> aT >> s;
+    std::vector<MOp> ops; std::string t;
+    while (is >> t) {
+      MOp o{t[0], 0, 0, 0}; const char* q = t.c_str() + 1; char* e = nullptr;
+      o.a = std::strtoull(q, &e, 10); if (e && *e == '.') { o.b = std::strtoull(e + 1, &e, 10); if (e && *e == '.') o.c = std::strtoull(e + 1, &e, 10); }
+      ops.push_back(o);
+    }
+#define POOL(ST, AT, S)
+#define PA(ST, AT, S) if (sT == ST && aT == AT && s == S) { run_multi(vt_pa<Blob<ST, AT>, S>(), ops); return; }
+#define SYS(ST, AT)
+#define ALIGNED(ST, AT, AL)
 #include CONFIGS_INC
 #undef POOL
 #undef PA
